@@ -4,8 +4,8 @@
 # stores it under /verif/seeded/<PROP>-<n>/ and removes the scratch worktree.
 set -u
 P=$1; N=$2; FEAT=${3:-}; SUB=${4:-.}
-SRC=/tmp/seed/$P/seed_out/$N
-DST=/verif/seeded/$P-$N
+SRC=${SEEDROOT:-/tmp/seed}/$P/seed_out/$N
+DST=/verif/seeded/$P-$((N+${OFFSET:-0}))
 W=/tmp/confirm/$P-$N
 export CARGO_TARGET_DIR=/tmp/confirm-target CARGO_NET_OFFLINE=true
 mkdir -p /tmp/confirm
